@@ -142,6 +142,31 @@ Theorem slice_t_tau a b (dts : list R) :
   /\ tau_get RO None (slice a b dts) = tau_of_t RO (slice a b dts).
 Proof. split; reflexivity. Qed.
 
+(* arbitrary keys: t and tau of the selected segments are recomputed from their dt *)
+Theorem select_t_tau idxs (dts : list R) :
+  t_get RO None (select 0 idxs dts) = times RO (select 0 idxs dts)
+  /\ tau_get RO None (select 0 idxs dts) = sumlist RO (select 0 idxs dts).
+Proof. split. reflexivity. apply tau_get_sum. left. reflexivity. Qed.
+(* a step-1 slice is the selection of seq a (b - a) *)
+Lemma skipn_nth_R (l : list R) a i : nth i (skipn a l) 0 = nth (a + i) l 0.
+Proof. revert l. induction a; intros l. reflexivity. destruct l. destruct i; reflexivity. apply IHa. Qed.
+Lemma firstn_nth_R (l : list R) n i : (i < n)%nat -> nth i (firstn n l) 0 = nth i l 0.
+Proof. revert l i. induction n; intros l i H. lia. destruct l. destruct i; reflexivity. destruct i. reflexivity. simpl. apply IHn. lia. Qed.
+Theorem slice_is_select a b (dts : list R) : (b <= length dts)%nat ->
+  slice a b dts = select 0 (seq a (b - a)) dts.
+Proof.
+  intros Hb. unfold slice, select.
+  apply (nth_ext _ _ 0 0).
+  - rewrite map_length, seq_length, firstn_length, skipn_length. lia.
+  - intros i Hi. rewrite firstn_length, skipn_length in Hi.
+    rewrite (nth_indep (map (fun i => nth i dts 0) (seq a (b - a))) 0 ((fun i => nth i dts 0) 0%nat)) by (rewrite map_length, seq_length; lia).
+    rewrite (map_nth (fun i => nth i dts 0)). rewrite seq_nth by lia.
+    rewrite firstn_nth_R by lia. apply skipn_nth_R.
+Qed.
+(* the model's domain test of propagator_at_arb_t is the hypothesis tq <= t[-1] of C02_arb_t_select *)
+Theorem arb_t_accepts_iff ts tq : arb_t_rejects RO ts tq = false <-> tq <= last ts 0.
+Proof. unfold arb_t_rejects, last_t. simpl. apply Rgtb_false. Qed.
+
 (* the sliced pulse's t is the old t shifted by t_a *)
 Lemma cumsum_from_skipn acc dts a : (a <= length dts)%nat ->
   skipn a (cumsum_from RO acc dts) = cumsum_from RO (nth a (cumsum_from RO acc dts) 0) (skipn a dts).
